@@ -8,6 +8,7 @@ name; the second round trip must change nothing; loading must not raise.
 """
 import io
 import math
+import copy
 import os
 import pickle
 import tempfile
@@ -61,6 +62,10 @@ def plan(tier, seed):
     return [{"cases": per, "base": seed * 1000003 + k} for k in range(n)]
 
 
+class LoaderModifiedItsInput(Exception):
+    pass
+
+
 def round_trip(model, channel, sort, tmpdir):
     import cobra.io as cio
 
@@ -91,7 +96,13 @@ def round_trip(model, channel, sort, tmpdir):
         with open(p) as f:
             return cio.load_yaml_model(f)
     if channel == "dict":
-        return cio.model_from_dict(cio.model_to_dict(model, sort=sort))
+        d = cio.model_to_dict(model, sort=sort)
+        d0 = copy.deepcopy(d)
+        m1 = cio.model_from_dict(d)
+        if d != d0:
+            # the dictionary is the saved model: a loader that consumes it makes the second load a different model
+            raise LoaderModifiedItsInput(next((f"{k}: {str(d0[k])[:120]} -> {str(d.get(k))[:120]}" for k in d0 if d.get(k) != d0[k]), "keys changed"))
+        return m1
     if channel.startswith("pickle"):
         return pickle.loads(pickle.dumps(model, protocol=int(channel.split("-")[1])))
     raise AssertionError(channel)
@@ -123,6 +134,16 @@ def run_case(base, case, acc, tmpdir):
         for r in rng.sample(list(model.reactions), min(3, len(model.reactions))):
             r.bounds = rng.choice([(2000.0, 3000.0), (-3000.0, -2000.0), (-0.5, 0.25), (float("-inf"), float("inf")), (0.0, float("inf")), (1e-3, 1e6), (5.0, 5.0), (-1234.5678, 0.1 + 0.2)])
         if rng.random() < 0.3:
+            # values these formats carry natively but a string-minded converter may not: null, nested containers, booleans, numbers
+            pool = list(model.reactions) + list(model.metabolites) + list(model.genes) + [model]
+            for x in rng.sample(pool, min(len(pool), rng.randint(1, 4))):
+                x.notes = dict(x.notes)
+                x.notes[rng.choice(["unset", "checked", "n"])] = rng.choice([None, None, {"a": None, "b": [None, "x"]}, True, 3, 0.25, [1, "two", None]])
+                if rng.random() < 0.5 and x is not model:
+                    x.annotation = dict(x.annotation)
+                    x.annotation[rng.choice(["curated", "kegg.alt"])] = rng.choice([None, ["C1", None]])
+            acc.count("models_with_null_or_nested_values_in_notes_or_annotation")
+        if rng.random() < 0.3:
             model.objective_direction = "min"
         if model.objective_direction == "min":
             acc.count("models_with_min_objective")
@@ -144,6 +165,9 @@ def run_case(base, case, acc, tmpdir):
                     m1 = round_trip(model, channel, sort, tmpdir)
             except Exception as e:
                 fam = channel.split("-")[0]
+                if isinstance(e, LoaderModifiedItsInput):
+                    acc.violation("C11/dict/model_from_dict-modified-the-dictionary", f"model_from_dict changed the dictionary it was given (loading it again gives another model): {e}", dict(ident, model=_brief(a)))
+                    continue
                 key = f"C11/{fam}/load-or-save-raised/{type(e).__name__}"
                 acc.violation(key, f"round trip through {channel} raised {type(e).__name__}: {str(e)[:200]}", dict(ident, model=_brief(a)))
                 continue
